@@ -248,14 +248,28 @@ def rule_fallback(dm, getters):
 
 
 def rule_dispatch(dm, getters):
+    prog = dm.prog
+    ds = [b for b in prog.bodies if b.name == DESCRIBE]
+    if not ds:
+        return [bad('TDESC', 'TDESC|describe', 'anchor lost: public ExprAST::describe not found')]
+    first = _rule_dispatch(dm, getters, ds[0])
+    if not any(o.status == 'violated' for o in first):
+        return first
+    v = prog.view(ds[0], keep=lambda g: g.is_pub or bool(g.impl_trait), tag='describe')
+    if v is not ds[0]:
+        second = _rule_dispatch(dm, getters, v)
+        if not any(o.status == 'violated' for o in second):
+            for o in second:
+                o.what += ' [read with private helpers inlined]'
+            return second
+    return first
+
+
+def _rule_dispatch(dm, getters, d):
     """describe(): each AST variant arm uses the getter of its own kind, passes the node's own
     name, and applies the descriptor to the children's describe() results in field order"""
     prog = dm.prog
     obs = []
-    ds = [b for b in prog.bodies if b.name == DESCRIBE]
-    if not ds:
-        return [bad('TDESC', 'TDESC|describe', 'anchor lost: public ExprAST::describe not found')]
-    d = ds[0]
     getter_kind = {}
     for kv, bs in getters.items():
         for b in bs:
@@ -332,9 +346,45 @@ def _classify_arg(prog, d, op):
         return ('unknown', None, None)
     if o.kind == 'param' and o.data == 1 and len(o.proj) >= 2 and o.proj[0][0] == 'dc' and o.proj[1][0] == 'f':
         return ('name', o.proj[0][1], o.proj[1][1])
+    did = getattr(d, 'orig_id', d.id)
     if o.kind == 'callres':
         c = o.data
-        if c.ruid == d.id and c.args:
+        if c.callee == 'std::vec::Vec::<T>::new' and not o.proj:
+            # the loop an iterator pipeline was desugared to (view): V = Vec::new(); loop { V.push(describe(item)) }
+            import r_order
+            res = set()
+            for pc in d.live_calls:
+                if pc.callee != 'std::vec::Vec::<T, A>::push' or len(pc.args) < 2:
+                    continue
+                vo = single_origin(trace_operand(d, pc.args[0], through_calls=set()))
+                if vo is None or vo.kind != 'callres' or vo.data.bb != c.bb:
+                    continue
+                xo = single_origin(trace_operand(d, pc.args[1], through_calls=THROUGH))
+                parts = [xo]
+                if xo is not None and xo.kind == 'agg' and xo.data[2].get('agg') == 'tuple' and not xo.proj:
+                    # a (key, value) entry: each component is describe() of the matching component of the item
+                    parts = [single_origin(trace_operand(d, e, through_calls=THROUGH)) for e in xo.data[2]['ops']]
+                io = None
+                for k, po in enumerate(parts):
+                    if po is None or po.kind != 'callres' or po.data.ruid != did or not po.data.args:
+                        return ('unknown', None, None)
+                    io = single_origin(trace_operand(d, po.data.args[0], through_calls=THROUGH))
+                    want_tail = () if len(parts) == 1 else (('f', k),)
+                    if io is None or io.kind != 'callres' or not r_order.FORWARD_NEXT_RE.match(io.data.rdef or '') or io.proj[:2] != (('dc', 'Some'), ('f', 0)) or io.proj[2:] != want_tail:
+                        return ('unknown', None, None)
+                it = single_origin(trace_operand(d, io.data.args[0], through_calls=THROUGH))
+                hops = 0
+                while it is not None and it.kind == 'callres' and it.data.callee in r_order.FORWARD_ITER_MAKERS and hops < 3:
+                    it = single_origin(trace_operand(d, it.data.args[0], through_calls=THROUGH))
+                    hops += 1
+                if it is not None and it.kind == 'param' and it.data == 1 and len(it.proj) >= 2 and it.proj[0][0] == 'dc':
+                    res.add(('children', it.proj[0][1], it.proj[1][1]))
+                else:
+                    return ('unknown', None, None)
+            if len(res) == 1:
+                return next(iter(res))
+            return ('unknown', None, None)
+        if c.ruid == did and c.args:
             r = single_origin(trace_operand(d, c.args[0], through_calls=THROUGH))
             if r is not None and r.kind == 'param' and r.data == 1 and len(r.proj) >= 2 and r.proj[0][0] == 'dc':
                 return ('child', r.proj[0][1], r.proj[1][1])
@@ -354,6 +404,6 @@ def _classify_arg(prog, d, op):
                 if it is not None and it.kind == 'param' and it.data == 1 and len(it.proj) >= 2 and it.proj[0][0] == 'dc':
                     # the closure must call describe on its item
                     clo = [cu for cu, calls in prog.closure_passed.items() if any(cc.body is d and cc.bb == m.data.bb for cc in calls)]
-                    if clo and clo[0] in prog.by_id and any(cc.ruid == d.id for cc in prog.by_id[clo[0]].live_calls):
+                    if clo and clo[0] in prog.by_id and any(cc.ruid == did for cc in prog.by_id[clo[0]].live_calls):
                         return ('children', it.proj[0][1], it.proj[1][1])
     return ('unknown', None, None)
